@@ -26,11 +26,6 @@ theorem eol_iff (c : UInt8) : isEol c = false → (c == 10) = false ∧ (c == 13
 
 /-! ### Decimal numbers -/
 
-/-- Zero-padded decimal of width `w` (the writer's `%010d` / `%05d` / `%d`). -/
-def renderDec : Nat → Nat → Bytes
-  | 0, _ => []
-  | w + 1, n => renderDec w (n / 10) ++ [UInt8.ofNat (48 + n % 10)]
-
 theorem length_renderDec (w n : Nat) : (renderDec w n).length = w := by
   induction w generalizing n with
   | zero => rfl
@@ -164,69 +159,6 @@ theorem splitSp_sep (a rest : Bytes) (h : ∀ b ∈ a, (b == fieldSep) = false) 
     simp [splitSp, ih (fun b hb => h b (List.mem_cons_of_mem _ hb)), hx]
 
 /-! ### The writer -/
-
-structure TEntry where
-  pos : Nat
-  gen : Nat
-  inuse : Bool
-  deriving Repr
-
-/-- The two bytes that end a 20-byte entry line. -/
-inductive EntEol | spLf | crLf | spCr
-  deriving Repr
-
-def EntEol.bytes : EntEol → Bytes
-  | .spLf => [32, 10]
-  | .crLf => [13, 10]
-  | .spCr => [32, 13]
-
-inductive LineEol | lf | crlf | cr
-  deriving Repr
-
-def LineEol.bytes : LineEol → Bytes
-  | .lf => [10]
-  | .crlf => [13, 10]
-  | .cr => [13]
-
-def useByte (e : TEntry) : UInt8 := if e.inuse then 110 else 102
-
-/-- `nnnnnnnnnn ggggg n` -/
-def entryCore (e : TEntry) : Bytes :=
-  renderDec 10 e.pos ++ fieldSep :: (renderDec 5 e.gen ++ [fieldSep, useByte e])
-
-def renderEntry (ee : EntEol) (e : TEntry) : Bytes := entryCore e ++ ee.bytes
-
-/-- A subsection: first object number (written with `ws ≥ 1` digits), count (`wc ≥ 1` digits), entries. -/
-structure Sub where
-  start : Nat
-  ws : Nat
-  wc : Nat
-  entries : List TEntry
-  deriving Repr
-
-def headerCore (sb : Sub) : Bytes := renderDec sb.ws sb.start ++ fieldSep :: renderDec sb.wc sb.entries.length
-
-def renderEntries (ee : EntEol) : List TEntry → Bytes
-  | [] => []
-  | e :: es => renderEntry ee e ++ renderEntries ee es
-
-def renderSub (eol : LineEol) (ee : EntEol) (sb : Sub) : Bytes :=
-  headerCore sb ++ (eol.bytes ++ renderEntries ee sb.entries)
-
-def renderTable (eol : LineEol) (ee : EntEol) : List Sub → Bytes
-  | [] => []
-  | sb :: rest => renderSub eol ee sb ++ renderTable eol ee rest
-
-/-- What `PDFXRef.load` must end up with: `offsets[objid] = (None, pos, gen)` for every in-use
-entry, in file order (a later entry for the same number overwrites). -/
-def insEntries : Int → List TEntry → List (Int × Entry) → List (Int × Entry)
-  | _, [], offs => offs
-  | objid, e :: es, offs =>
-    insEntries (objid + 1) es (if e.inuse then insertOff offs objid ⟨none, e.pos, e.gen⟩ else offs)
-
-def insSubs : List Sub → List (Int × Entry) → List (Int × Entry)
-  | [], offs => offs
-  | sb :: rest, offs => insSubs rest (insEntries (sb.start : Int) sb.entries offs)
 
 def EntryFits (e : TEntry) : Prop := e.pos < 10 ^ 10 ∧ e.gen < 10 ^ 5
 
@@ -669,17 +601,6 @@ theorem lookupOff_insertOff (offs : List (Int × Entry)) (k : Int) (e : Entry) (
       · have hpn' : (pk == n) = false := by simpa using hpn
         simp only [hpn', Bool.false_eq_true, ↓reduceIte]
         exact ih (fun p hp => hall p (List.mem_cons_of_mem _ hp))
-
-/-- Dictionary meaning of the written subsections: scanning in file order, the last in-use line
-whose object number is `n` gives `n`'s entry. -/
-def specEntries : Int → List TEntry → Int → Option Entry → Option Entry
-  | _, [], _, acc => acc
-  | objid, e :: es, n, acc =>
-    specEntries (objid + 1) es n (if e.inuse && objid == n then some ⟨none, e.pos, e.gen⟩ else acc)
-
-def specSubs : List Sub → Int → Option Entry → Option Entry
-  | [], _, acc => acc
-  | sb :: rest, n, acc => specSubs rest n (specEntries (sb.start : Int) sb.entries n acc)
 
 theorem lookup_insEntries (objid : Int) (es : List TEntry) (offs : List (Int × Entry)) (n : Int) :
     lookupOff (insEntries objid es offs) n = specEntries objid es n (lookupOff offs n) := by
